@@ -35,7 +35,12 @@ BOUNDS = {'quick': {'N': 2, 'script_prefix': 1},
 DESIGNATED = [('s0', 'tok'), ('s0', 'num'), ('shared', 'tok'),
               ('shared', 'num')]
 STORE_SCHEMAS = [None, {'s0': {'_emit': True}}, {'shared': {'_emit': False}},
-                 {'shared': {'num': {'_emit': True}}}]
+                 {'shared': {'num': {'_emit': True}}},
+                 # a single variable switched OFF at leaf level
+                 {'shared': {'tok': {'_emit': False}},
+                  's0': {'num': {'_emit': False}}},
+                 # leaf-level OFF under a branch-level ON
+                 {'s0': {'_emit': True, 'tok': {'_emit': False}}}]
 
 
 class VmcSerializer(Serializer):
@@ -43,6 +48,19 @@ class VmcSerializer(Serializer):
 
     def serialize(self, data):
         return f'vmc<{data}>'
+
+
+def grow_in_place(current, update):
+    """A user updater that changes the value IN PLACE (the value object
+    keeps its identity while its content changes)."""
+    current.setdefault('keys', []).append(update)
+    current['n'] = current.get('n', 0) + 1
+    return current
+
+
+from vmc import probes as _probes  # noqa: E402
+_probes._register(_probes.updater_registry, 'vmc_grow_in_place',
+                  grow_in_place)
 
 
 VMC_SER = VmcSerializer()
@@ -68,6 +86,11 @@ def world(tss, flags, store_schema, emit_step, script, with_step, struct):
             # updates arrive in another compatible unit
             spec['update']['priv']['mass'] = 0.001 * units.pg
             spec['update']['priv']['cs'] = 1
+            # a serialized variable that is updated in place
+            spec['schema']['priv']['rec'] = {
+                '_default': {'n': 0, 'keys': []}, '_emit': True,
+                '_updater': 'vmc_grow_in_place', '_serializer': VMC_SER}
+            spec['update']['priv']['rec'] = {'$key': 'e'}
         else:
             for (store, var) in DESIGNATED:
                 if store == 'shared':
@@ -126,6 +149,7 @@ def flagged(spec):
         on.add((store, var))
     on.add(('s0', 'mass'))
     on.add(('s0', 'cs'))
+    on.add(('s0', 'rec'))
     if spec['with_step']:
         on.add(('derived', 'copy'))
     ss = spec.get('store_schema') or {}
@@ -146,9 +170,12 @@ def flagged(spec):
     return pred
 
 
+ATOMIC = {'rec'}       # variables whose VALUE is a dictionary
+
+
 def leaves(tree, path=()):
     out = {}
-    if isinstance(tree, dict):
+    if isinstance(tree, dict) and not (path and path[-1] in ATOMIC):
         for k, v in tree.items():
             out.update(leaves(v, path + (k,)))
     else:
@@ -175,7 +202,7 @@ def row_matches(path, got, want):
             return False
         return (isinstance(got, str) and q.units == units.fg
                 and abs(q.magnitude - want.to(units.fg).magnitude) < 1e-9)
-    if path[-1] == 'cs':
+    if path[-1] in ('cs', 'rec'):
         return got == f'vmc<{want}>'
     if isinstance(want, tuple):
         return tuple(got) == want
